@@ -19,3 +19,7 @@ BooleanDecode = _reg(C1.BooleanDecode, C1.BooleanDecode.target)
 BooleanSet = _reg(C1.BooleanSet, C1.BooleanSet.target)
 EncodeItemHeader = _reg(C1.EncodeItemHeader, C1.EncodeItemHeader.target)
 LemmaFloatBounds = _reg(LF.LemmaFloatBounds, LF.LemmaFloatBounds.target)
+
+from contracts import C01_containers as CC  # noqa: E402
+ArrayDecode = _reg(CC.ArrayDecode, CC.ArrayDecode.target)
+ListDecode = _reg(CC.ListDecode, CC.ListDecode.target)
